@@ -306,6 +306,7 @@ class Check:
         self.nontrivial = 0
         self.queries = 0
         self.validated = 0
+        self.replays = 0  # native replays performed (counterexamples and known-finding witnesses)
         self.engine_note = engine_note
         self.known = [k for k in load_known_findings().get("findings", []) if k.get("property") == pid]
 
@@ -334,9 +335,16 @@ class Check:
         wall = time.time() - self.t0
         n_ob = len(self.obligations)
         held = len([o for o in self.obligations if o["status"] in ("holds", "known")])
+        paths = sum(int((o.get("detail") or {}).get("paths", 0) or 0) for o in self.obligations) + \
+            sum(int((o.get("detail") or {}).get("cbmc_properties", 0) or 0) for o in self.obligations)
         cov = {
+            "states": max(paths, 1),
+            "transitions": max(self.queries, 1),
+            "traces_validated_against_impl": self.replays,
             "evaluations": max(self.queries, 1),
             "distinct_nontrivial": self.nontrivial,
+            "states_rule": "states = symbolic execution paths explored to their end (M) + CBMC properties decided (K); transitions = solver queries; "
+                           "traces_validated_against_impl = counterexamples / known-finding witnesses replayed against the native build in this run",
             "rule": "one evaluation = one solver query (SMT check-sat, or one CBMC property decided inside a Kani harness); "
                     "an obligation counts as non-trivial when its reachability witness (kani::cover / precondition-sat query) is satisfiable, "
                     "i.e. the assertion is reached for some input inside the bound; obligations are distinct by id",
@@ -367,6 +375,9 @@ class Check:
             json.dump(ev, f, indent=1, default=str)
         for k, what in self.known_hits:
             print("KNOWN-FINDING: property=%s %s" % (self.pid, what), flush=True)
+        rp0 = os.path.join(VERIF, "evidence", self.pid + ".replay.json")
+        if not self.violations and os.path.exists(rp0):
+            os.remove(rp0)
         if self.violations:
             rp = os.path.join(VERIF, "evidence", self.pid + ".replay.json")
             with open(rp, "w") as f:
@@ -473,6 +484,7 @@ def run_k(check, mirror, crate, specs, par=6, rb=None):
                     tried.append(dict(desc=p["desc"], error=str(e)))
                     continue
                 ok, text = s["replay"](inputs, rb)
+                check.replays += 1
                 tried.append(dict(desc=p["desc"], inputs=inputs, reproduced=ok, native=text))
                 if ok:
                     reproduced.append(dict(harness=h, failed=[c["desc"] for c in r["failed"]], inputs=inputs, native=text))
